@@ -215,7 +215,7 @@ func exhaustiveDocs(thorough bool) []exDoc {
 func exhaustiveFamily(h *hx.H) {
 	s := fixedSchema()
 	e := &enumerator{s: s}
-	limit := 500
+	limit := 300
 	if h.Thorough() {
 		limit = 2500
 	}
